@@ -710,7 +710,17 @@ class PureScheduler:                                    # pylint: disable=r0902
             # wait for the forever tasks for a clean exit
             # don't bother to set a timeout, as this is expected
             # to be immediate since all tasks are canceled
-            await asyncio.wait(pending)
+            # if we get cancelled ourselves in the meanwhile, do not leave
+            # these tasks behind: finish waiting for them, then propagate
+            cancelled = None
+            while True:
+                try:
+                    await asyncio.wait(pending)
+                    break
+                except asyncio.CancelledError as exc:
+                    cancelled = exc
+            if cancelled is not None:
+                raise cancelled
 
     async def _tidy_tasks_exception(self, tasks):
         """
